@@ -221,8 +221,10 @@ def run_case(ctx, case):
                 ("knot_remove", lambda a: a.knot_remove([inner_[0]], None) if inner_ else None),
                 ("knotvector setter", lambda a: setattr(a, "knotvector", [2 * frac(x) for x in a.knotvector]))]
         # the mutated sibling with points and weights, without points (basis only), with weights only
+        # the whole (sibling kind x mutator) matrix for every third case, the two cheapest mutators of each kind otherwise
+        whole = (rec.evaluations % 3 == 0)
         for kind in ("full", "basis-only", "weights-only"):
-            for mname, mut in muts:
+            for mname, mut in (muts if whole else muts[:2]):
                 kv = KnotVector(list(U))
                 if kind == "full":
                     a_ = Curve(kv, c1.ctrlpoints, c1.weights)
